@@ -45,6 +45,8 @@ enum MOp {
     Unregister { gen: usize },
     UnregisterSignal { sig: i32 },
     RegisterForbidden,
+    /// SIGKILL / SIGSTOP through an unchecked entry point: the OS refuses, the call returns Err
+    RegisterUncheckedRefused { stop: bool },
     IterNew { sigs: Vec<i32>, exf: u8 },
     IterAdd { sig: i32 },
     IterDrop,
@@ -392,13 +394,14 @@ fn gen_scenario(spec: &RunSpec) -> (Vec<Vec<MOp>>, Vec<Vec<i32>>, Config) {
     let mut muts: Vec<Vec<MOp>> = vec![Vec::new(); nmut];
     let mut gen = 0usize;
     let mut gen_sigs: Vec<i32> = Vec::new();
-    let total_ops = 2 + sim::work(9) as usize;
+    let deep = spec.tier == Tier::Thorough;
+    let total_ops = 2 + sim::work(if deep { 14 } else { 9 }) as usize;
     let builtin = prop == "C03" || sim::work(4) == 0;
     let mut one_panic_drop = prop == "C18" && sim::work(3) == 0;
     let mut have_iter = vec![false; nmut];
     for k in 0..total_ops {
         let t = if k < nmut { k } else { sim::work(nmut as u32) as usize };
-        if muts[t].len() >= 5 {
+        if muts[t].len() >= if deep { 7 } else { 5 } {
             continue;
         }
         // op mix: register heavy at first, then removals
@@ -435,8 +438,10 @@ fn gen_scenario(spec: &RunSpec) -> (Vec<Vec<MOp>>, Vec<Vec<i32>>, Config) {
             MOp::Unregister { gen: sim::work(gen as u32) as usize }
         } else if r < 88 {
             MOp::UnregisterSignal { sig: sigs[sim::work(nsig as u32) as usize] }
-        } else if r < 92 && (prop == "C18" || prop == "C14") {
+        } else if r < 90 && (prop == "C18" || prop == "C14") {
             MOp::RegisterForbidden
+        } else if r < 92 && (prop == "C18" || prop == "C14") {
+            MOp::RegisterUncheckedRefused { stop: sim::work(2) == 0 }
         } else if r < 97 && !have_iter[t] && (prop == "C01" || prop == "C18" || prop == "C03") {
             have_iter[t] = true;
             let n = 1 + sim::work(2) as usize;
@@ -456,7 +461,7 @@ fn gen_scenario(spec: &RunSpec) -> (Vec<Vec<MOp>>, Vec<Vec<i32>>, Config) {
     }
     let mut dels: Vec<Vec<i32>> = Vec::new();
     for _ in 0..ndel {
-        let n = 1 + sim::work(4) as usize;
+        let n = 1 + sim::work(if deep { 6 } else { 4 }) as usize;
         dels.push((0..n).map(|_| sigs[sim::work(nsig as u32) as usize]).collect());
     }
     // knobs (swarm)
@@ -478,11 +483,11 @@ fn gen_scenario(spec: &RunSpec) -> (Vec<Vec<MOp>>, Vec<Vec<i32>>, Config) {
         wm,
         inject_num: inj.0,
         inject_den: inj.1,
-        inject_budget: if inj.0 == 0 { 0 } else { 1 + sim::work(4) },
+        inject_budget: if inj.0 == 0 { 0 } else { 1 + sim::work(if deep { 6 } else { 4 }) },
         max_nest: 2,
         cas_spurious_pct: 0,
-        step_budget: 20_000,
-        pct_horizon: 150,
+        step_budget: 40_000,
+        pct_horizon: if deep { 250 } else { 150 },
     };
     let x = w();
     x.foreign_now = vec![(1, 0); sigs.len()];
@@ -800,6 +805,18 @@ fn exec_mop(op: &MOp, iter: &mut Option<IterBox>) {
                 sim::count(E_MUT_PANIC, 1);
             } else {
                 sim::report("C14", "forbidden-accepted", "register(SIGKILL) did not panic", false);
+            }
+        }
+        MOp::RegisterUncheckedRefused { stop } => {
+            op_enter();
+            let sig = if *stop { libc::SIGSTOP } else { libc::SIGKILL };
+            let r = catch_unwind(AssertUnwindSafe(|| unsafe { signal_hook_registry::register_signal_unchecked(sig, || ()) }));
+            let _g = ShimGuard::new();
+            op_leave();
+            match r {
+                Ok(Err(_)) => sim::count(E_MUT_PANIC, 1),
+                Ok(Ok(_)) => sim::report("C14", "unchecked-refusal-not-passed-through", "register_signal_unchecked(SIGKILL/SIGSTOP) succeeded although the OS refuses it", false),
+                Err(_) => sim::report("C18", "mutator-panicked", &format!("register_signal_unchecked of a signal the OS refuses panicked: {}", sighook_shim::shm::get_str(&sighook_shim::shm::get().panic_msg)), true),
             }
         }
         MOp::IterNew { sigs, exf } => {
